@@ -178,9 +178,13 @@ KeyValN *g_n0, *g_n1, *g_n2; int g_L;             /* the chain: g_L nodes, in or
 KeyValN** vf_bucket; int* vf_n;                   /* a[bin] and _n() */
 int g_new; KeyValN* g_newnode;
 static void vf_delete(KeyValN* p) { free(p); }    /* delete p */
+/* rehash() may rebuild the table: a bucket index or chain pointer taken BEFORE it belongs to the old table */
+int g_bin_taken;
+static void VF_BIN(void) { g_bin_taken = 1; }
+static void VF_REHASH(void) { __CPROVER_assert(!g_bin_taken, "the table is grown before the bucket of the key is chosen (an index computed for the old table must not be used in the new one)"); }
 static KeyValN* vf_new(int key) { KeyValN* p = malloc(sizeof(KeyValN)); __CPROVER_assume(p != 0); p->key = key; p->value = 0; p->next = 0; g_new++; g_newnode = p; return p; }
 #define NODE(i) ((i) == 0 ? g_n0 : (i) == 1 ? g_n1 : g_n2)
-#define CHAIN_REQ __CPROVER_requires(__CPROVER_is_fresh(vf_bucket, sizeof(KeyValN*)) && __CPROVER_is_fresh(vf_n, sizeof(int)) && 0 <= g_L && g_L <= 3 && *vf_n >= g_L && *vf_n < 1000000) \
+#define CHAIN_REQ __CPROVER_requires(g_bin_taken == 0) __CPROVER_requires(__CPROVER_is_fresh(vf_bucket, sizeof(KeyValN*)) && __CPROVER_is_fresh(vf_n, sizeof(int)) && 0 <= g_L && g_L <= 3 && *vf_n >= g_L && *vf_n < 1000000) \
    __CPROVER_requires(__CPROVER_is_fresh(g_n0, sizeof(KeyValN)) && __CPROVER_is_fresh(g_n1, sizeof(KeyValN)) && __CPROVER_is_fresh(g_n2, sizeof(KeyValN))) \
    __CPROVER_requires(*vf_bucket == (g_L >= 1 ? g_n0 : (KeyValN*)0) && g_n0->next == (g_L >= 2 ? g_n1 : (KeyValN*)0) && g_n1->next == (g_L >= 3 ? g_n2 : (KeyValN*)0) && g_n2->next == (KeyValN*)0) \
    __CPROVER_requires(g_n0->key != g_n1->key && g_n0->key != g_n2->key && g_n1->key != g_n2->key)     /* keys of a map are distinct */
@@ -193,8 +197,8 @@ static KeyValN* vf_new(int key) { KeyValN* p = malloc(sizeof(KeyValN)); __CPROVE
 #define K2 __CPROVER_old(g_n2->key)
 #define J ((g_L >= 1 && K0 == key) ? 0 : (g_L >= 2 && K1 == key) ? 1 : (g_L >= 3 && K2 == key) ? 2 : -1)
 '''
-HM_RULES = [(r'\ba\[bin\]', '(*vf_bucket)', None), (r'\ba\[binOf\(key\)\]', '(*vf_bucket)', None), (r'int bin = binOf\(key\);', '', None), (r'(?<![\w.>])_n\(\)', '(*vf_n)', None),
-            (r'\bdelete p;', 'vf_delete(p);', None), (r'new KeyValN\(key, T\(\)\)', 'vf_new(key)', None), (r'(?<![\w.>])rehash\(\);', '', None)]
+HM_RULES = [(r'\ba\[bin\]', '(*vf_bucket)', None), (r'\ba\[binOf\(key\)\]', '(*vf_bucket)', None), (r'int bin = binOf\(key\);', 'VF_BIN();', None), (r'(?<![\w.>])_n\(\)', '(*vf_n)', None),
+            (r'\bdelete p;', 'vf_delete(p);', None), (r'new KeyValN\(key, T\(\)\)', 'vf_new(key)', None), (r'(?<![\w.>])rehash\(\);', 'VF_REHASH();', None)]
 CH_ANCHOR = (r'\A\{', '{ VF_ANCHOR_CHAIN ', 1)
 
 hm_remove = Unit(
@@ -213,7 +217,7 @@ __CPROVER_ensures((g_L >= 2 && J != 1) ==> g_n1->next == SUCC(1, J))
 __CPROVER_ensures((g_L >= 3 && J != 2) ==> g_n2->next == (KeyValN*)0)
 __CPROVER_ensures(*vf_n == __CPROVER_old(*vf_n) - (J >= 0 ? 1 : 0))
 __CPROVER_ensures(__CPROVER_was_freed(g_n0) == (J == 0) && __CPROVER_was_freed(g_n1) == (J == 1) && __CPROVER_was_freed(g_n2) == (J == 2))
-__CPROVER_assigns(*vf_bucket, *vf_n, g_n0->next, g_n1->next, g_n2->next)
+__CPROVER_assigns(g_bin_taken, *vf_bucket, *vf_n, g_n0->next, g_n1->next, g_n2->next)
 __CPROVER_frees(g_n0, g_n1, g_n2)
 @@rm@@
 void vf_harness(void) { int k; HashMap_remove(k); VF_CANARY(); }
@@ -235,7 +239,7 @@ __CPROVER_ensures(J >= 0 ==> (__CPROVER_return_value == &NODE(J)->value && g_new
 __CPROVER_ensures(J < 0 ==> (g_new == 1 && *vf_n == __CPROVER_old(*vf_n) + 1 && __CPROVER_return_value == &g_newnode->value && g_newnode->key == key && g_newnode->next == (KeyValN*)0))
 __CPROVER_ensures(J < 0 ==> (g_L == 0 ? *vf_bucket == g_newnode : NODE(g_L - 1)->next == g_newnode))
 __CPROVER_ensures(*vf_bucket == (g_L >= 1 ? g_n0 : (J < 0 ? g_newnode : (KeyValN*)0)) && (g_L >= 2 ==> g_n0->next == g_n1) && (g_L >= 3 ==> g_n1->next == g_n2))
-__CPROVER_assigns(*vf_bucket, *vf_n, g_n0->next, g_n1->next, g_n2->next, g_new, g_newnode)
+__CPROVER_assigns(g_bin_taken, *vf_bucket, *vf_n, g_n0->next, g_n1->next, g_n2->next, g_new, g_newnode)
 @@idx@@
 void vf_harness(void) { int k; HashMap_index(k); VF_CANARY(); }
 """,
@@ -259,7 +263,7 @@ __CPROVER_ensures(J >= 0 ? __CPROVER_return_value == &NODE(J)->value : __CPROVER
 __CPROVER_ensures(g_has == (J >= 0))
 __CPROVER_ensures(*vf_bucket == __CPROVER_old(*vf_bucket) && *vf_n == __CPROVER_old(*vf_n))
 __CPROVER_ensures((g_L >= 1 ==> g_n0->next == __CPROVER_old(g_n0->next)) && (g_L >= 2 ==> g_n1->next == __CPROVER_old(g_n1->next)) && (g_L >= 3 ==> g_n2->next == __CPROVER_old(g_n2->next)))
-__CPROVER_assigns(*vf_bucket, g_n0->next, g_n1->next, g_n2->next, g_has)   /* (the links only because of the R16 anchor assignments; the postcondition shows them unchanged) */
+__CPROVER_assigns(g_bin_taken, *vf_bucket, g_n0->next, g_n1->next, g_n2->next, g_has)   /* (the links only because of the R16 anchor assignments; the postcondition shows them unchanged) */
 { g_has = HashMap_has_body(key); return HashMap_find_body(key); }
 void vf_harness(void) { int k; HashMap_find(k); VF_CANARY(); }
 """,
@@ -465,6 +469,28 @@ void vf_harness(void) {
     functions=['compare(const String&, const String&)'], trusted=['String::compare(const String&) = strcmp'],
 )
 UNITS += [enum_unit, cmp_string]
+
+# ---- Set::notIn / operator-: the difference is a NEW set (the HashMap copy constructor shares the table: returning *this hands out a second handle on this set)
+notin_unit = Unit(
+    'Set_notIn', 'C02',
+    cuts=[Cut('ni', SET, r'^\tSet notIn\(const Set& s\) const\s*$',
+              rules=[(r'Set b;', 'g_new = 1;', 1), (r'foreach\(const T& x, \*this\) if\(!s\.contains\(x\)\) b << x;', 'g_filled = 1;', None), (r'return b;', '{ g_ret_new = 1; return; }', None), (r'return \*this;', '{ g_ret_this = 1; return; }', None),
+                     (r'\bs\.length\(\)', 'g_slen', None), (r'(?<![\w.>])length\(\)', 'g_len', None)])],
+    text=PRE + r"""
+int g_new, g_filled, g_ret_new, g_ret_this, g_slen, g_len;
+void Set_notIn(void)
+__CPROVER_requires(g_new == 0 && g_filled == 0 && g_ret_new == 0 && g_ret_this == 0 && 0 <= g_slen && 0 <= g_len)
+/* for every pair of sets (empty ones too): a fresh set is built, filled with the members of *this that are not in s, and returned; *this itself is never handed out */
+__CPROVER_ensures(g_new == 1 && g_filled == 1 && g_ret_new == 1 && g_ret_this == 0)
+__CPROVER_assigns(g_new, g_filled, g_ret_new, g_ret_this)
+@@ni@@
+void vf_harness(void) { Set_notIn(); VF_CANARY(); }
+""",
+    entry='Set_notIn', kind='proof',
+    desc='Set::notIn (operator-): always returns a newly built set, also when the other set is empty; never a second handle on *this',
+    functions=['Set::notIn', 'Set::operator-'], trusted=['the filtering loop abstracted to one event (has()/operator[] by the HashMap units)'],
+)
+UNITS += [notin_unit]
 
 # replay: the units verify single operations on ghost-shaped states (one bucket chain, a sorted array); the native counterpart is the driver's small-scope
 # exhaustive search over operation sequences on colliding keys
